@@ -28,6 +28,13 @@ def cases(tier, seed):
             for k, part in enumerate([seqs[i::4] for i in range(4)]):
                 out.append({"kind": "var", "func": f, "ddof": ddof, "N": N, "G": G, "codes_list": [list(c) for c in part],
                             "name": f"GroupBy.{f}(ddof={ddof})/N={N},G={G}/{len(part)} code sequences x all null patterns (part {k})"})
+    # integer values of any magnitude: the result is a float variance, so no intermediate 64-bit integer product or sum may overflow
+    # (groups of 0 or >= 2 rows so that every group's variance is defined; small sizes: the mixed integer/real polynomial identities are
+    # expensive for the solver - measured 60 s for one 2+2 sequence - and the overflow does not need more than two rows)
+    for Ni, Gi, iseqs in ((2, 1, [[0, 0]]), (3, 1, [[0, 0, -1]])) if tier == "quick" else ((2, 1, [[0, 0]]), (3, 1, [[0, 0, -1], [0, 0, 0]]), (4, 2, [[0, 0, 1, 1]])):
+        for f in ("var", "std"):
+            out.append({"kind": "var", "func": f, "ddof": 1, "N": Ni, "G": Gi, "dtype": "int64", "codes_list": [list(c) for c in iseqs],
+                        "name": f"GroupBy.{f}(ddof=1) of int64 values of any magnitude/N={Ni},G={Gi}/{len(iseqs)} code sequences"})
     # var/std with transform=True through the REAL _apply_gb_reduction(transform=True): every row gets its group's variance
     tseqs = seqs[::4] if tier == "quick" else seqs[::2]
     for f in ("var", "std"):
@@ -115,17 +122,26 @@ def run_var(E, case):
             GB._apply_gb_reduction = kernel_level_reduction
         for codes in case["codes_list"]:
             members = {g: [i for i in range(N) if codes[i] == g] for g in range(G)}
-            for nulls in itertools.product([False, True], repeat=N):
+            is_int = case.get("dtype") == "int64"
+            for nulls in (itertools.product([False, True], repeat=N) if not is_int else [tuple([False] * N)]):
                 if any(nulls[i] and codes[i] < 0 for i in range(N)):
                     continue
                 inp = Inputs()
-                vs = inp.floats("x", N, nullable=False)
-                xs = [float("nan") if nulls[i] else vs[i] for i in range(N)]
+                if is_int:
+                    vs = inp.ints("x", N, -2**40, 2**40)          # sums stay inside 64 bits, squares need not
+                    for a_ in range(N):
+                        for b_ in range(a_ + 1, N):
+                            inp.pre.append(vs[a_] != vs[b_])     # distinct values: a wrapped intermediate then shows in the result (replayable)
+                    xs = list(vs)
+                else:
+                    vs = inp.floats("x", N, nullable=False)
+                    xs = [float("nan") if nulls[i] else vs[i] for i in range(N)]
                 inp.vars["k"] = ("const", list(codes), "int64")
                 inp.vars["nulls"] = ("const", [int(b) for b in nulls], "int64")
                 rt = fresh_runtime()
+                rt.check_int_overflow = is_int
                 gb = make_gb(E, G, codes=A(list(codes), "int64"))
-                vals = A(xs, "float64").tag("input:values")
+                vals = A(xs, "int64" if is_int else "float64").tag("input:values")
                 if case.get("transform"):
                     out = getattr(gb, f)(vals, ddof=ddof, transform=True)
                 else:
@@ -142,7 +158,7 @@ def run_var(E, case):
                     if g < 0:
                         bl.append((f"{f}: row {pos} with a null key gets null", b_not(SF.of(out.cells[pos]).nan)))
                         continue
-                    valid = [vs[i] for i in members[g] if not nulls[i]]
+                    valid = [SF.of(vs[i]) for i in members[g] if not nulls[i]]
                     n = len(valid)
                     r = SF.of(out.cells[pos])
                     if n - ddof <= 0:
@@ -718,6 +734,29 @@ def replay(case, conc, cand=None):
     codes = case["codes"]
     keys = pd.Series([float(c) if c >= 0 else float("nan") for c in codes] + [float(g) for g in range(G)])
     try:
+        if case["kind"] == "var" and case.get("dtype") == "int64":
+            xi = [int(x) for x in conc["x"]]
+            keys = pd.Series([float(c) if c >= 0 else float("nan") for c in codes])
+            got = getattr(GroupBy(keys), case["func"])(real_np.array(xi, dtype="int64"), ddof=case["ddof"])
+            bad, detail = [], {}
+            from fractions import Fraction
+            for g in sorted(set(c for c in codes if c >= 0)):
+                vals = [Fraction(xi[i]) for i in range(N) if codes[i] == g]
+                n = len(vals)
+                if n - case["ddof"] <= 0:
+                    continue
+                m = sum(vals) / n
+                exp = float(sum((v - m) ** 2 for v in vals) / (n - case["ddof"]))
+                if case["func"] == "std":
+                    exp = exp ** 0.5
+                g_ = float(got.loc[float(g)])
+                # rounding bound proportional to the squared magnitude of the data (one-pass formula in float64)
+                tol = 64 * 2.3e-16 * n * float(max(abs(v) for v in vals)) ** 2 if case["func"] == "var" else None
+                ok = abs(g_ - exp) <= tol + 1e-9 if tol is not None else (g_ == g_ and g_ >= 0 and abs(g_ * g_ - exp * exp) <= 64 * 2.3e-16 * n * float(max(abs(v) for v in vals)) ** 2 + 1e-9)
+                detail[g] = (g_, exp)
+                if not ok:
+                    bad.append(g)
+            return bool(bad), {"got_vs_expected": jsonable(detail), "wrong_groups": bad, "x": xi, "codes": codes}
         if case["kind"] == "var":
             xs = [float("nan") if case["nulls"][i] else float(conc["x"][i]) for i in range(N)]
             keys = pd.Series([float(c) if c >= 0 else float("nan") for c in codes])
